@@ -47,32 +47,30 @@ def trace_boundary(cfg):
     cfg.ext_q["TraceState::ToHeader"] = lambda em, node, recv, args: "xc_TraceState_ToHeader(%s)" % em.expr(recv["node"] if recv.get("xc_is_ptr") else recv)
 
 
+def trace_boundary_c(names):
+    """boundary C text for a module whose propagators read the given header names (index = position in the list)"""
+    assert len(names) <= 5
+    table = "".join("/* header %d: %s */\n" % (i, n) for i, n in enumerate(names))
+    look = ""
+    for i, n in enumerate(names):
+        cond = " && ".join(["key.length_ == %d" % len(n)] + ["key.data_[%d] == '%s'" % (k, c) for k, c in enumerate(n)])
+        look += "  if (%s) { g_get_seen[%d]++; return g_get_ret[%d]; }\n" % (cond, i, i)
+    return TRACE_BOUNDARY_C.replace("@@HDR_TABLE@@", table).replace("@@HDR_LOOKUP@@", look)
+
+
 TRACE_BOUNDARY_C = '''
 /* ---- carrier boundary: Get returns the next ghost input header, Set copies into a ghost log ---- */
-char g_get_key[XC_MAX_GET][XC_KEY_CAP]; unsigned long g_get_key_len[XC_MAX_GET]; string_view g_get_ret[XC_MAX_GET]; unsigned long g_get_calls;
+string_view g_get_ret[XC_MAX_GET]; unsigned long g_get_seen[XC_MAX_GET]; unsigned long g_get_calls;
 char g_set_key[XC_MAX_SET][XC_KEY_CAP]; unsigned long g_set_key_len[XC_MAX_SET]; char g_set_val[XC_MAX_SET][XC_SET_CAP]; unsigned long g_set_len[XC_MAX_SET]; unsigned long g_set_calls;
+/* Get(name) returns the ghost input header registered for that name (by content, independent of the order of reads) */
+@@HDR_TABLE@@
 string_view xc_carrier_get(string_view key)
 {
-  __CPROVER_assert(g_get_calls < XC_MAX_GET, "boundary: more carrier.Get calls than modelled");
-  __CPROVER_assert(key.length_ <= XC_KEY_CAP, "boundary: header name longer than modelled");
-  g_get_key_len[g_get_calls] = key.length_;
-  g_get_key[g_get_calls][0] = 0UL < key.length_ ? key.data_[0] : 0;
-  g_get_key[g_get_calls][1] = 1UL < key.length_ ? key.data_[1] : 0;
-  g_get_key[g_get_calls][2] = 2UL < key.length_ ? key.data_[2] : 0;
-  g_get_key[g_get_calls][3] = 3UL < key.length_ ? key.data_[3] : 0;
-  g_get_key[g_get_calls][4] = 4UL < key.length_ ? key.data_[4] : 0;
-  g_get_key[g_get_calls][5] = 5UL < key.length_ ? key.data_[5] : 0;
-  g_get_key[g_get_calls][6] = 6UL < key.length_ ? key.data_[6] : 0;
-  g_get_key[g_get_calls][7] = 7UL < key.length_ ? key.data_[7] : 0;
-  g_get_key[g_get_calls][8] = 8UL < key.length_ ? key.data_[8] : 0;
-  g_get_key[g_get_calls][9] = 9UL < key.length_ ? key.data_[9] : 0;
-  g_get_key[g_get_calls][10] = 10UL < key.length_ ? key.data_[10] : 0;
-  g_get_key[g_get_calls][11] = 11UL < key.length_ ? key.data_[11] : 0;
-  g_get_key[g_get_calls][12] = 12UL < key.length_ ? key.data_[12] : 0;
-  g_get_key[g_get_calls][13] = 13UL < key.length_ ? key.data_[13] : 0;
-  g_get_key[g_get_calls][14] = 14UL < key.length_ ? key.data_[14] : 0;
-  g_get_key[g_get_calls][15] = 15UL < key.length_ ? key.data_[15] : 0;
-  return g_get_ret[g_get_calls++];
+  g_get_calls++;
+@@HDR_LOOKUP@@
+  __CPROVER_assert(0, "boundary: carrier.Get of a header name the harness does not model");
+  string_view none; none.data_ = ""; none.length_ = 0;
+  return none;
 }
 void xc_carrier_set(string_view key, string_view value)
 {
@@ -229,3 +227,158 @@ SV_CONTRACTS = {
         "__CPROVER_ensures(lhs.length_ != rhs.length_ ==> !__CPROVER_return_value)\n"
         "__CPROVER_ensures((lhs.length_ == 0 && rhs.length_ == 0) ==> __CPROVER_return_value)\n"},
 }
+
+
+# ---------------------------------------------------------------------------------------------
+# metrics SDK boundary
+def _vec_type(em, base, targs, name):
+    if base == "std::vector" and targs:
+        t0 = targs[0].strip()
+        if t0 == "double":
+            return CT("xc_vec_double")
+        if t0 in ("unsigned long", "uint64_t"):
+            return CT("xc_vec_u64")
+    return None
+
+
+def _variant_type(em, base, targs, name):
+    if base in ("nostd::variant", "variant", "absl::otel_v1::variant") and targs and [t.strip().replace("int64_t", "long") for t in targs] == ["long", "double"]:
+        return CT("xc_value")
+    return None
+
+
+def _vget(em, node, recv, args):
+    t = em.ctype(node["type"])
+    if t.is_ref:
+        t = t.pointee()
+    f = {"long": "xc_vget_i64", "double": "xc_vget_f64"}.get(t.base)
+    if f is None:
+        raise ExtractionError("nostd::get on unsupported alternative %s" % t.base)
+    return "%s(%s)" % (f, em.expr(args[0]))
+
+
+def _vassign(em, node, recv, args):
+    # variant::operator=(T&&): the alternative is chosen by the argument type
+    a = args[0]
+    t = em.ctype(a["type"])
+    if t.is_ref:
+        t = t.pointee()
+    f = {"long": "xc_vmake_i64", "double": "xc_vmake_f64", "xc_value": ""}.get(t.base)
+    if f is None:
+        raise ExtractionError("variant assignment from %s" % t.base)
+    return "%s = %s(%s)" % (em.expr(recv), f, em.expr(a))
+
+
+def _vassign_m(em, recv, args, n):
+    a = args[0]
+    t = em.ctype(a["type"])
+    if t.is_ref:
+        t = t.pointee()
+    f = {"long": "xc_vmake_i64", "double": "xc_vmake_f64", "xc_value": ""}.get(t.base)
+    if f is None:
+        raise ExtractionError("variant assignment from %s" % t.base)
+    return "%s = %s(%s)" % (recv, f, em.expr(a))
+
+
+def _iter_type(em, base, targs, name):
+    if base == "__gnu_cxx::__normal_iterator" and targs:
+        return em._ctype(targs[0])
+    return None
+
+
+def _vec_kind(em, node):
+    t = em.ctype(node["type"])
+    if t.is_ref:
+        t = t.pointee()
+    return {"xc_vec_double": "double", "xc_vec_u64": "u64"}.get(t.base)
+
+
+def _vec_assign(em, recv, args, n):
+    a = args[0]
+    s = em._strip(a)
+    kind = _vec_kind(em, n)
+    if s.get("kind") == "CXXStdInitializerListExpr" or "initializer_list" in a["type"].get("qualType", ""):
+        # v = {a, b, c}
+        lst = s
+        while lst.get("kind") != "InitListExpr" and lst.get("inner"):
+            lst = lst["inner"][0]
+        vals = [em.expr(c) for c in lst.get("inner", [])]
+        em.report["std::vector assignment from an initializer list -> xc_vec_*_assign_list (assumed contract)"] += 1
+        return "xc_vec_%s_assign_list(&(%s), %d, (const %s[]){%s})" % (kind, recv, len(vals), "double" if kind == "double" else "uint64_t", ", ".join(vals))
+    if a.get("valueCategory") in ("prvalue", "xvalue") or s.get("valueCategory") in ("prvalue", "xvalue"):
+        em.report["std::vector move assignment -> struct copy (old buffer not modelled)"] += 1
+        return "%s = %s" % (recv, em.expr(a))
+    em.report["std::vector copy assignment -> xc_vec_*_assign (assumed contract)"] += 1
+    return "xc_vec_%s_assign(&(%s), %s)" % (kind, recv, em.expr(a))
+
+
+def _vec_ctor(em, node, args):
+    t = em.ctype(node["type"])
+    kind = {"xc_vec_double": "double", "xc_vec_u64": "u64"}.get(t.base)
+    real = [a for a in args if a.get("kind") != "CXXDefaultArgExpr"]
+    if len(real) == 2:
+        em.report["std::vector(n, value) -> xc_vec_*_make (assumed contract)"] += 1
+        return "xc_vec_%s_make(%s, %s)" % (kind, em.expr(real[0]), em.expr(real[1]))
+    if len(real) == 1:
+        at = em.ctype(real[0]["type"])
+        if at.base == t.base:
+            if real[0].get("valueCategory") in ("prvalue", "xvalue"):
+                return em.expr(real[0])
+            return "xc_vec_%s_copy(%s)" % (kind, em.expr(real[0]))
+    if not real:
+        return "((%s){0, 0})" % t.base
+    raise ExtractionError("std::vector construction with %d args" % len(real))
+
+
+def _lower_bound(name):
+    def h(em, node, recv, args):
+        et = em.ctype(args[0]["type"])
+        vt = em.ctype(args[2]["type"])
+        if vt.is_ref:
+            vt = vt.pointee()
+        suf = {"long": "i64", "double": "f64"}.get(vt.base)
+        if et.base != "double" or suf is None:
+            raise ExtractionError("std::%s over %s / %s" % (name, et.text(), vt.text()))
+        em.report["std::%s -> xc_%s_* (assumed contract: C++ standard)" % (name, name)] += 1
+        return "xc_%s_%s(%s, %s, %s)" % (name, suf, em.expr(args[0]), em.expr(args[1]), em.expr(args[2]))
+    return h
+
+
+def _variant_ctor(em, node, args):
+    real = [a for a in args if a.get("kind") != "CXXDefaultArgExpr"]
+    if not real:
+        return "xc_vmake_i64(0)"     # value-initialised first alternative
+    t = em.ctype(real[0]["type"])
+    if t.is_ref:
+        t = t.pointee()
+    if t.base == "xc_value":
+        return em.expr(real[0])
+    f = {"long": "xc_vmake_i64", "double": "xc_vmake_f64", "int": "xc_vmake_i64"}.get(t.base)
+    if f is None:
+        raise ExtractionError("variant construction from %s" % t.base)
+    return "%s(%s)" % (f, em.expr(real[0]))
+
+
+def metrics_boundary(cfg):
+    cfg.type_handlers.append(_iter_type)
+    cfg.ext_methods["__gnu_cxx::__normal_iterator::operator-"] = lambda em, recv, args, n: "(%s - %s)" % (recv, em.expr(args[0]))
+    cfg.ext_methods["std::vector::operator="] = _vec_assign
+    cfg.ctor_ext["std::vector"] = _vec_ctor
+    cfg.ctor_ext["absl::otel_v1::variant"] = _variant_ctor
+    cfg.ext["lower_bound"] = _lower_bound("lower_bound")
+    cfg.ext["upper_bound"] = _lower_bound("upper_bound")
+    cfg.type_handlers.append(_vec_type)
+    cfg.type_handlers.append(_variant_type)
+    cfg.ext_q["nostd::get"] = _vget
+    cfg.ext["get"] = _vget
+    cfg.ext_q["variant<long, double>::operator="] = _vassign
+    cfg.ext_methods["absl::otel_v1::variant::operator="] = _vassign_m
+    cfg.drop_types = getattr(cfg, "drop_types", set()) | {"std::lock_guard"}
+    cfg.opaque_records["sdk::common::OrderedAttributeMap"] = "xc_opaque"
+    cfg.opaque_records["OrderedAttributeMap"] = "xc_opaque"
+    for n in ("std::vector",):
+        cfg.ext_methods[n + "::size"] = lambda em, recv, args, n: "%s.len" % recv
+        cfg.ext_methods[n + "::operator[]"] = lambda em, recv, args, n: "%s.data[%s]" % (recv, em.expr(args[0]))
+        cfg.ext_methods[n + "::begin"] = lambda em, recv, args, n: "%s.data" % recv
+        cfg.ext_methods[n + "::end"] = lambda em, recv, args, n: "(%s.data + %s.len)" % (recv, recv)
+        cfg.ext_methods[n + "::empty"] = lambda em, recv, args, n: "(%s.len == 0)" % recv
